@@ -97,6 +97,13 @@ def gen_cases(tier, seed):
                             continue
                         yield {'kind': 'acc', 'atom': atom, 'e': e, 'z': z, 'ctx': ctx, 'iface': iface, 'degs': degs,
                                'fe': 'ro'}
+    # directly used rsome.gcp.Model (soc_solve of rsome/gcp.py)
+    for ctx in (('solo', 'allc') if not thorough else ('solo', 'mid3', 'soc', 'bounds', 'allc')):
+        for atom in ATOMS:
+            for e in (EXPONENTS if thorough else EXPONENTS[:9]):
+                for iface in ('eco', 'grb'):
+                    yield {'kind': 'acc', 'atom': atom, 'e': e, 'z': 1.0, 'ctx': ctx, 'iface': iface, 'degs': degs,
+                           'fe': 'gcp'}
     # dro front end (soc_solve of rsome/dro.py): solo + all contexts
     for ctx in (('solo', 'allc', 'all') if not thorough else CONTEXTS):
         for atom in ATOMS:
@@ -161,6 +168,9 @@ def build(case, fe=None):
     atom, e, z, ctx = case['atom'], case['e'], case['z'], case.get('ctx', 'solo')
     if fe == 'ro':
         m = _rs['ro'].Model()
+    elif fe == 'gcp':
+        import rsome.gcp as gcpm
+        m = gcpm.Model()            # the model class used directly (its own soc_solve)
     else:
         m = _rs['dro'].Model(1)
     ops = [1]
@@ -177,6 +187,8 @@ def build(case, fe=None):
         ops[0] += 1
         if fe == 'ro':
             m.st(*thunk[0]())
+        elif fe == 'gcp':
+            m.st(list(thunk[0]()))
         else:
             deferred.append(thunk[0])
 
@@ -314,6 +326,23 @@ def _solver(iface):
     return _rs['eco'] if iface == 'eco' else _rs['grb']
 
 
+class Recorder:
+    """A solver object that records the program soc_solve() hands over and delegates to the real interface."""
+
+    def __init__(self, real):
+        self.real = real
+        self.formula = None
+
+    def solve(self, formula, *args, **kwargs):
+        self.formula = formula
+        return self.real.solve(formula, *args, **kwargs)
+
+
+def _handed_cones(rec):
+    f = rec.formula
+    return None if f is None else len(getattr(f, 'xmat', []) or [])
+
+
 def _verdict(m, iface):
     """'optimal' | 'infeasible' | 'unbounded' | 'other' for the model's last solve."""
     sol = m.solution
@@ -330,7 +359,7 @@ def _verdict(m, iface):
         return 'other'
     if st == '2' and sol.x is not None:
         return 'optimal'
-    return {'3': 'infeasible', '5': 'unbounded'}.get(st, 'other')
+    return {'3': 'infeasible', '4': 'unbounded', '5': 'unbounded'}.get(st, 'other')
 
 
 def _opt(m, iface):
@@ -387,13 +416,20 @@ def run_acc(case):
     for d in case['degs']:
         bb = build(case)
         ops += bb.ops + 1
+        rec = Recorder(_solver(iface))
         try:
-            bb.m.soc_solve(_solver(iface), degree=d, display=False, params=_params(iface, d))
+            bb.m.soc_solve(rec, degree=d, display=False, params=_params(iface, d))
         except Exception as ex:  # noqa
             if 'size-limited license' in str(ex):
                 continue        # environment: Gurobi restricted licence, not the code under test
             return {'status': 'violation', 'ops': ops, 'sig': tag + '|soc_solve raises ' + type(ex).__name__,
                     'detail': 'degree %d e=%s z=%s: %s' % (d, e, z, str(ex)[:160])}
+        nx = _handed_cones(rec)
+        if nx is None or nx > 0:
+            # structural: what soc_solve passes to the interface must be the approximation (no exp cone left)
+            return {'status': 'violation', 'ops': ops,
+                    'sig': tag + '|soc_solve hands a program with exponential cones to the interface',
+                    'detail': 'degree %d: %s exp cone(s) in the program given to the solver' % (d, nx)}
         ok, v = _opt(bb.m, iface)
         if not ok:
             vd = _verdict(bb.m, iface)
@@ -518,7 +554,12 @@ def run_hist(case):
         ops += 1
         try:
             if step == 'soc':
-                b.m.soc_solve(_solver(iface), degree=4, display=False, params=_params(iface))
+                rec = Recorder(_solver(iface))
+                b.m.soc_solve(rec, degree=4, display=False, params=_params(iface))
+                if _handed_cones(rec) != 0:
+                    return {'status': 'violation', 'ops': ops,
+                            'sig': tag + '|soc_solve hands a program with exponential cones to the interface',
+                            'detail': 'step %d' % k}
                 ok, v = _opt(b.m, iface)
                 tol = 1e-3 * max(abs(v_cf), b.scale) + 2e-4
             elif step == 'solve':
@@ -591,7 +632,7 @@ def _cut_call(m, iface, how, degree, cuts):
     if iface == 'eco':
         return ('infeasible' if st.startswith('Primal inf') else 'unbounded' if st.startswith('Dual inf')
                 else 'other'), float('nan')
-    return {'3': 'infeasible', '5': 'unbounded'}.get(st, 'other'), float('nan')
+    return {'3': 'infeasible', '4': 'unbounded', '5': 'unbounded'}.get(st, 'other'), float('nan')
 
 
 _cutref = {}
